@@ -67,6 +67,36 @@ theorem unnormalize_inverse (x μ σ : ℝ) (h0 : σ ≠ 0) : RS.add (RS.mul (RS
   ring
 
 variable {isZero : ℝ → Bool} {F P N D : Nat} {b : PBody ℝ}
+/-- **Distribution normaliser, on the body** (axes (0, 1)): for every point `n` and coordinate `d` whose column has a mean `μ` and a non-zero deviation `σ`, the
+    column of the result has mean 0 and deviation 1; confidences and missing pattern are unchanged. -/
+theorem normalizeDistribution_post {isZero : ℝ → Bool} {F P N D : Nat} {b : PBody ℝ} (h : BInv isZero F P N D b) (hF : 0 < F) (hP : 0 < P) (hN : 0 < N)
+    (n d : Nat) (hn : n < N) (hd : d < D) (μ σ : ℝ) (hμ : meanOpt RS (columnVals b false n d) = some μ) (hσ : stdOpt RS (columnVals b false n d) = some σ) (h0 : σ ≠ 0) :
+    meanOpt RS (columnVals (normalizeDistribution RS isZero false b).1 false n d) = some 0 ∧
+    stdOpt RS (columnVals (normalizeDistribution RS isZero false b).1 false n d) = some 1 ∧
+    (normalizeDistribution RS isZero false b).1.conf = b.conf ∧ (normalizeDistribution RS isZero false b).1.missing = b.missing := by
+  have hD : numDimsBody b = D := numDims_of_rect h.data hF hP hN
+  have hNp : numPoints b = N := numPoints_of_rect h.conf hF hP
+  -- the result is a coordinate-wise, index-aware image of the input
+  let g : Nat → Nat → ℝ → ℝ := fun n d x =>
+    distMap RS ((((List.range N).map fun n => (List.range D).map fun d => meanOpt RS (columnVals b false n d)).getD n []).getD d none)
+      ((((List.range N).map fun n => (List.range D).map fun d => stdOpt RS (columnVals b false n d)).getD n []).getD d none) x
+  have hres : (normalizeDistribution RS isZero false b).1 = mapCoordsN isZero g b.fps b := by
+    unfold normalizeDistribution mapCoordsN
+    simp only [hD, hNp]
+    rfl
+  have hg : g n d = fun x => RS.div (RS.sub x μ) σ := by
+    funext x
+    simp only [g, getD_range_map' N n _ [] hn, getD_range_map' D d _ none hd, hμ, hσ, distMap]
+  rw [hres]
+  have hcol : columnVals (mapCoordsN isZero g b.fps b) false n d = (columnVals b false n d).map fun x => RS.div (RS.sub x μ) σ := by
+    unfold columnVals
+    simp only [Bool.false_eq_true, if_false]
+    rw [cellVals_mapCoordsN h, filterMap_id_map, hg]
+  rw [hcol]
+  refine ⟨distribution_mean_zero _ μ σ hμ h0, distribution_std_one _ μ σ hμ hσ h0, ?_, ?_⟩
+  · rw [mapCoordsN_eq h]
+  · rw [mapCoordsN_eq h]
+
 /-- **Postcondition of `normalize`**: confidences and missing pattern unchanged, mean midpoint of the reference points at the origin, mean reference distance
     equal to the requested scale. -/
 theorem normalize_post (h : BInv isZero F P N D b) (p1 p2 : Nat) (sf : ℝ) (hsf : 0 < sf) (b' : PBody ℝ) (center : List ℝ) (md : ℝ)
